@@ -36,12 +36,27 @@ def base_metafiles(tmp, rng):
             fd.write(oracle.ref_metafile("payload", files, pl, ver, extra_top=extra_top,
                                          extra_info={b"source": b"refsrc", b"x-unknown": {b"k": 1}}))
         out.append((f"ref-v{ver}", mf))
+    # foreign key ORDER (as a number of third-party tools write it): the top level and the info dictionary are not sorted; the
+    # info-hash is over the bytes as they are in the file, so an edit that names no info field must leave the span alone
+    for ver in (1, 2, 3):
+        raw = oracle.ref_metafile("payload", files, pl, ver, extra_top={b"announce": b"http://ref/u", b"url-list": [b"http://ref/w"]},
+                                  extra_info={b"source": b"unsorted-src", b"x-unknown": {b"k": 1}})
+        top = oracle.bdecode_lenient(raw)
+        shuffled = oracle.OrderedPairs()
+        for k, v in reversed(top):
+            if k == b"info":
+                v = oracle.OrderedPairs(list(v)[1::2] + list(v)[0::2])
+            shuffled.append((k, v))
+        mf = os.path.join(tmp, "base", f"unsorted-v{ver}.torrent")
+        with open(mf, "wb") as fd:
+            fd.write(oracle.bencode_ordered(shuffled))
+        out.append((f"unsorted-v{ver}", mf))
     return out
 
 
 def value_for(field, shape, rng):
     if field == "private":
-        return "1"
+        return rng.choice(["1", True, 1])       # the command line passes True
     if shape == "str":
         return {"comment": "new comment text", "source": "NEWSRC", "announce": "http://n/1 http://n/2",
                 "url-list": "http://nw/1  http://nw/2", "httpseeds": "http://nh/1"}[field]
